@@ -30,6 +30,45 @@ var commonAssumptions = []string{
 func allChecks() []CheckSpec {
 	return []CheckSpec{
 		{
+			ID: "C03",
+			Harnesses: []HarnessSpec{
+				{Fn: "verifC03Controlling", Lemma: "controlling full agent: one authenticated Binding request or success response into the real handleInbound: selection invariant (selected => listed, Succeeded, nominated) preserved; a pair becomes Succeeded only on its own matched response (lite controlled: or on an authenticated nomination); controlling selects only on a matched response whose request carried USE-CANDIDATE; controlled selects on a request only with USE-CANDIDATE/nomination on that very pair and on a response only for a pair nominated earlier; a controlled agent never emits USE-CANDIDATE, a lite controlled agent never emits requests; plain USE-CANDIDATE never lowers the selected priority when priorities are checked",
+					Bounds: "2 local + 1 remote UDP candidates, symbolic pair states/flags, candidate priorities 1..256, selection nil or any pair, 0..1 (thorough 0..2) outstanding transactions, nomination attribute absent/valid(/short in thorough)", MustReach: []string{"pair-became-succeeded", "selection-changed", "controlling-selected", "done"}},
+				{Fn: "verifC03Controlled", Lemma: "controlled full agent: same lemma set",
+					Bounds: "as verifC03Controlling", MustReach: []string{"pair-became-succeeded", "selection-changed", "controlled-selected-on-request", "controlled-selected-on-response", "plain-nomination-switch", "done"}},
+				{Fn: "verifC03Lite", Lemma: "lite agent (both roles, with and without the priority-check flag): same lemma set",
+					Bounds: "1 (thorough 2) local + 1 remote, 0..1 outstanding transaction", MustReach: []string{"pair-became-succeeded", "selection-changed", "done"}},
+				{Fn: "verifC03Tick", Lemma: "one ContactCandidates tick: never changes the selection, preserves the invariant, USE-CANDIDATE only from a controlling agent on a Succeeded pair, lite controlled emits no request, recorded transaction flags equal the datagram's",
+					Bounds: "2 local + 1 remote, full and lite, both roles, symbolic pair states and request counts", MustReach: []string{"nomination-sent", "done"}},
+			},
+			Assumptions: append([]string{
+				"MESSAGE-INTEGRITY contract (tag injective in key); CRC uninterpreted; transaction ids/clock arbitrary (clock steps <= 1 ms inside a step)",
+				"ghost field: each outstanding transaction remembers the local candidate that sent it (bindingRequest does not record it)",
+				"no application binding-request handler (as the property states)",
+			}, commonAssumptions...),
+			Outside: "histories beyond one step from the bounded pre-state; TCP candidates; automatic renomination (float scoring)",
+		},
+		{
+			ID: "C20",
+			Harnesses: []HarnessSpec{
+				{Fn: "verifC20AcceptSequence", Lemma: "for any sequence of nominations the i-th is accepted iff it has no value or exceeds every accepted value; the stored maximum is the last accepted",
+					Bounds: "sequences of 3 (quick) / 4 (thorough) nominations, each valued (any 32-bit value) or plain", MustReach: []string{"done"}},
+				{Fn: "verifC20Controlled", Lemma: "controlled agent, one authenticated request: an accepted valued nomination on a valid pair selects it whatever the priorities, on a not-yet-valid pair it is deferred; a stale value changes neither selection, flags nor the stored maximum and is still answered",
+					Bounds: "2 local + 1 remote, symbolic pair states/priorities/selection/stored maximum, 0..1 outstanding transaction", MustReach: []string{"nomination-accepted", "accepted-on-valid-pair", "nomination-rejected", "done"}},
+				{Fn: "verifC20Controlling", Lemma: "controlling agent, one authenticated success response: a matched response to a valued nomination always switches, to a plain one only when nothing is selected",
+					Bounds: "1 (quick) / 2 (thorough) local + 1 remote, 0..2 outstanding transactions with optional 24-bit values", MustReach: []string{"controlling-nomination-response", "valued", "done"}},
+				{Fn: "verifC20Deferred", Lemma: "two steps: accepted nomination on a not-yet-valid pair, then its matched response => that pair is selected whatever the priorities",
+					Bounds: "2 pairs, symbolic priorities and nomination values (24 bit)", MustReach: []string{"done"}},
+				{Fn: "verifC20Renominate", Lemma: "RenominateCandidate: controlled or feature-off => error and nothing sent; otherwise one request with USE-CANDIDATE and the generator's value, recorded with it",
+					Bounds: "both roles x feature on/off, any 32-bit generator value", MustReach: []string{"renominated", "valued", "done"}},
+				{Fn: "verifC20Codec", Lemma: "nomination values below 2^24 survive encode/decode", Bounds: "all 32-bit values", MustReach: []string{"done"}},
+			},
+			Assumptions: append([]string{
+				"MESSAGE-INTEGRITY contract (tag injective in key); CRC uninterpreted; transaction ids/clock arbitrary",
+			}, commonAssumptions...),
+			Outside: "'both agents end on the mirror-image pair' (two live agents); automatic renomination",
+		},
+		{
 			ID: "C02",
 			Harnesses: []HarnessSpec{
 				{Fn: "verifC02Inbound", Lemma: "one STUN message of any class/method into the real handleInbound from a symbolic pre-state: non-Binding and error responses, requests with a wrong/absent USERNAME or an integrity not under the local password, responses not under the remote password or from an unknown source change nothing observable (datagrams, candidates, pairs, selection, state, role, timestamps, callbacks, transactions); a signed response changes pair state only for an outstanding (<4 s), same-transport, same-address transaction and only on the pair (receiving local, source remote); an indication can only refresh the known remote's last-received",
